@@ -353,6 +353,16 @@ func (m *M) stepSafe() {
 				}
 				st.Panic = &PanicInfo{V: v, Msg: e.msg}
 				// the faulting instruction is skipped
+			case goPark:
+				// a goroutine run inline blocks forever: discard its frames and continue the spawner
+				for len(st.Frames) > 0 {
+					top := st.top()
+					st.Frames = st.Frames[:len(st.Frames)-1]
+					if top.IsGoRoot {
+						break
+					}
+				}
+				st.logging = false
 			case dropPath:
 				st.Status = Dropped
 				st.Why = e.why
@@ -940,8 +950,12 @@ func (m *M) execInstr(f *Frame, instr ssa.Instruction) {
 		case "skip":
 			m.ex.noteAssumption("go statements are not executed (goroutine bodies outside the claim): " + fnName(fn))
 		case "inline":
-			m.ex.noteAssumption("go statements run inline to completion at the spawn point: " + fnName(fn))
+			m.ex.noteAssumption("go statements run inline at the spawn point, to completion or until they block on a select with no ready case (then the goroutine is parked for good): " + fnName(fn))
+			nf := len(st.Frames)
 			m.callValue(fn, args, nil, false)
+			if len(st.Frames) > nf {
+				st.top().IsGoRoot = true
+			}
 		default:
 			abortf("go statement (%s) without verif:go mode", fnName(fn))
 		}
